@@ -203,7 +203,34 @@ def fam_abi_many_locals(n):
     return pt.Seq(x.set(pt.Int(5)), many(x).store_into(r_), pt.Return(r_.get() == pt.Int(want))), 6
 
 
+def fam_slot_capacity_chain(n):
+    """a call chain caller -> mid -> leaf in which every routine keeps a local across its call, in a program whose main routine
+    holds n further variables: 250 of them fill the 256 slots exactly (scratch convention: 6 routine slots), more must be refused"""
+    @pt.Subroutine(pt.TealType.uint64)
+    def leaf(z):
+        w = pt.ScratchVar(pt.TealType.uint64)
+        return pt.Seq(w.store(z * z), w.load() + z)
+
+    @pt.Subroutine(pt.TealType.uint64)
+    def mid(y):
+        u = pt.ScratchVar(pt.TealType.uint64)
+        return pt.Seq(u.store(y + pt.Int(1)), leaf(u.load()) + u.load() - y)
+
+    @pt.Subroutine(pt.TealType.uint64)
+    def caller(x):
+        t = pt.ScratchVar(pt.TealType.uint64)
+        return pt.Seq(t.store(x * pt.Int(2)), mid(x) + t.load() + x)
+    vs = [pt.ScratchVar(pt.TealType.uint64) for _ in range(n)]
+    tot = pt.Int(0)
+    for v in vs[:2] + vs[-2:]:
+        tot = tot + v.load()
+    # caller(3): t = 6; mid(3): u = 4; leaf(4) = 16 + 4 = 20; mid = 20 + 4 - 3 = 21; caller = 21 + 6 + 3 = 30
+    want = 30 + sum((list(range(n))[:2] + list(range(n))[-2:]))
+    return pt.Seq(*[v.store(pt.Int(i)) for i, v in enumerate(vs)], pt.Return(caller(pt.Int(3)) + tot == pt.Int(want))), 2
+
+
 FAMILIES = {
+    "slot_capacity_chain": (fam_slot_capacity_chain, [3, 250, 251, 253, 254]),
     "abi_many_locals": (fam_abi_many_locals, [126, 127, 128, 130]),
     "explicit_return_abi_local": (fam_explicit_return_abi_local, [0, 3, 12]),
     "rec_byref_local": (fam_rec_byref_local, [0, 1, 3]),
